@@ -9,6 +9,7 @@ mod c01;
 mod c02;
 mod c07;
 mod c09;
+mod c11;
 mod c03;
 mod c12;
 mod c13;
@@ -33,6 +34,7 @@ fn main() {
         "C08" => Some(c07::drive08),
         "C09" => Some(c09::drive09),
         "C10" => Some(c09::drive10),
+        "C11" => Some(c11::drive),
         _ => None,
     };
     if let Some(f) = offline {
